@@ -432,10 +432,10 @@ func blockReaderRule(c *Ctx, r *Report, rule string) {
 			if !okOp {
 				return false
 			}
-			// the side carrying l must be unsigned (no conversion of l to a signed type before the comparison)
+			// one side must be the decoded length itself: unsigned and without arithmetic on it (a sum like n+l can wrap)
 			unsignedL := func(side ssa.Value) bool {
 				bt, ok := side.Type().Underlying().(*types.Basic)
-				return ok && bt.Info()&types.IsUnsigned != 0 && hasLeaf(side, isL)
+				return ok && bt.Info()&types.IsUnsigned != 0 && isL(side)
 			}
 			if !(unsignedL(bo.X) || unsignedL(bo.Y)) {
 				return false
@@ -453,22 +453,34 @@ func blockReaderRule(c *Ctx, r *Report, rule string) {
 	}})
 	n := 0
 	eachInstr(fn, func(in ssa.Instruction) {
-		cv, ok := in.(*ssa.Convert)
-		if !ok || !isL(cv.X) {
-			return
-		}
-		bt, ok := cv.Type().Underlying().(*types.Basic)
-		if !ok || bt.Info()&types.IsUnsigned != 0 {
+		// targets: narrowing conversions of the length, and slices of the input whose bounds depend on it
+		var cv ssa.Instruction
+		switch x := in.(type) {
+		case *ssa.Convert:
+			if !isL(x.X) {
+				return
+			}
+			bt, ok := x.Type().Underlying().(*types.Basic)
+			if !ok || bt.Info()&types.IsUnsigned != 0 {
+				return
+			}
+			cv = x
+		case *ssa.Slice:
+			if x.X != ssa.Value(fn.Params[0]) || !((x.High != nil && hasLeaf(x.High, isL)) || (x.Low != nil && hasLeaf(x.Low, isL))) {
+				return
+			}
+			cv = x
+		default:
 			return
 		}
 		n++
 		p := ReachTargetAvoiding(fn, cv, guards, nil)
-		r.Check(p == nil, rule, fmt.Sprintf("%s / int(length) #%d bounded before conversion", fnKey(fn), n),
-			"the decoded uint64 length is compared (unsigned, with the prefix length accounted for) against len(data) before it is converted to int",
-			"the decoded length is converted to int without a preceding unsigned bound that involves the length, the prefix size and len(data): lengths >= 2^63 or lengths that only fit without the prefix slice out of range", c.pathString(p)...)
+		r.Check(p == nil, rule, fmt.Sprintf("%s / use of the decoded length #%d bounded before conversion", fnKey(fn), n),
+			"the decoded uint64 length itself is compared (unsigned, no arithmetic on it, prefix length accounted for on the other side) against len(data) before it is narrowed or used as a slice bound",
+			"the decoded length is narrowed / used as a slice bound without a preceding unsigned comparison of the bare length against a bound built from len(data) and the prefix size: lengths >= 2^63, lengths near 2^64 (wrapping sums) or lengths that only fit without the prefix slice out of range", c.pathString(p)...)
 	})
 	if n == 0 {
-		r.Undecided(rule, fnKey(fn), "no conversion of the decoded length found")
+		r.Undecided(rule, fnKey(fn), "no use of the decoded length found")
 	}
 	// success return shape: data[n : n+l], count n+l
 	okShape, okCount := false, false
@@ -486,14 +498,25 @@ func blockReaderRule(c *Ctx, r *Report, rule string) {
 	})
 	r.Check(okShape, rule, fnKey(fn)+" / block is data[n:n+l]", "the block returned starts behind the prefix and is l bytes long", "the block returned is not data[n:n+l]")
 	r.Check(okCount, rule, fnKey(fn)+" / count is n+l", "the reported length points exactly behind the block", "the reported length is not n+l")
-	// error of Unpack64 propagates
-	c.RequireGuards(r, rule, fnKey(fn)+" / uses the length only if it decoded", fn, firstInstrOfKind(fn, func(in ssa.Instruction) bool {
-		cv, ok := in.(*ssa.Convert)
-		return ok && isL(cv.X)
-	}), Guard{Name: "Unpack64 error == nil", Truthy: false, Match: func(b ssa.Value) bool {
+	// the length is used only if it decoded
+	decoded := Guard{Name: "Unpack64 error == nil", Truthy: false, Match: func(b ssa.Value) bool {
 		ex, ok := b.(*ssa.Extract)
 		return ok && ex.Tuple == ssa.Value(unp) && ex.Index == 2
-	}})
+	}}
+	for _, ref := range *unp.Referrers() {
+		ex, ok := ref.(*ssa.Extract)
+		if !ok || ex.Index != 0 {
+			continue
+		}
+		k := 0
+		for _, use := range *ex.Referrers() {
+			if _, isDbg := use.(*ssa.DebugRef); isDbg {
+				continue
+			}
+			k++
+			c.RequireGuards(r, rule, fmt.Sprintf("%s / decoded length use #%d only on success", fnKey(fn), k), fn, use, decoded)
+		}
+	}
 	// PrependLength
 	if pl := c.Func("formats/varint.PrependLength"); pl == nil {
 		r.Undecided(rule, "formats/varint.PrependLength", "anchor function missing")
